@@ -5,6 +5,7 @@ Stream `derived` (harness/s_derived.c vs lean/Driver/Derived.lean): four kinds o
   L  linux.uts.release / linux.version_code      (fresh context)
   V  linux.vmcoreinfo.raw / lines / typed values / convenience calls (fresh context)
   R  cpu.0.reg.* / cpu.0.pid / cpu.0.PRSTATUS    (generated ELF dump of every architecture)
+  X  cpu.<n>.reg.* / cpu.<n>.XEN_PRSTATUS        (generated Xen domain dump, 1-3 virtual CPUs)
 (1) the property is evaluated on the implementation's outputs against expectations
 computed here, independently of the model (ELF core ABI register layout, Python's own
 text splitting and number parsing); (2) the outputs are compared with the Lean model.
@@ -16,6 +17,7 @@ P = "Kdf.Props.C14."
 THEOREMS = [P + t for t in (
     "page_set_coherent", "page_history", "page_set_ok_iff",
     "reg_read_eq_blob", "reg_write_patches_blob", "reg_read_after_write", "reg_history", "reg_cleared",
+    "xen_records", "xen_reg_read_eq_section", "xen_cpu_frame", "xen_reg_write_patches_record", "xen_history",
     "version_code_coherent", "version_history", "version_cleared",
     "vmci_lines_split", "vmci_lines_view", "vmci_raw_unchanged", "vmci_dir_refused", "vmci_dot_refused")]
 M64 = (1 << 64) - 1
@@ -61,6 +63,36 @@ def abi_table(arch):
     return t, base + w * NGREG[arch] + (4 if arch == "ppc64" else 0)
 
 
+XEN_RECSZ = 5168
+
+
+def xen_abi_table():
+    """name -> (offset, length) inside struct vcpu_guest_context of x86-64 as laid out by Xen's
+    public headers (xen/include/public/arch-x86/xen.h, xen-x86_64.h; not taken from the
+    repository): fpu_ctxt[512], flags, user_regs (cpu_user_regs: fifteen 64-bit registers,
+    error_code/entry_vector, rip, cs + padding, saved_upcall_mask, rflags, rsp, ss/es/ds/fs/gs each
+    padded to 8 bytes), trap_ctxt[256] of 16 bytes, ldt_base/ldt_ents, gdt_frames[16]/gdt_ents,
+    kernel_ss/kernel_sp, ctrlreg[8], debugreg[8], three callbacks, vm_assist, three segment bases."""
+    t = {}
+    ur = 512 + 8
+    for i, n in enumerate("r15 r14 r13 r12 rbp rbx r11 r10 r9 r8 rax rcx rdx rsi rdi".split()):
+        t["reg." + n] = (ur + 8 * i, 8)
+    t["reg.rip"] = (ur + 128, 8)
+    t["reg.cs"] = (ur + 136, 2)
+    t["reg.rflags"] = (ur + 144, 8)
+    t["reg.rsp"] = (ur + 152, 8)
+    for i, n in enumerate("ss es ds fs gs".split()):
+        t["reg." + n] = (ur + 160 + 8 * i, 2)
+    after_traps = ur + 200 + 256 * 16
+    ctrl = after_traps + 16 + 17 * 8 + 16
+    for i in range(8):
+        t["reg.cr%d" % i] = (ctrl + 8 * i, 8)
+        t["reg.dr%d" % i] = (ctrl + 64 + 8 * i, 8)
+    size = ctrl + 128 + 4 * 8 + 3 * 8
+    assert size == XEN_RECSZ
+    return t, size
+
+
 def elf_note(name, ntype, desc, be):
     E = ">" if be else "<"
     nm = name + b"\0"
@@ -88,7 +120,7 @@ class Case:
 
 
 def silent(l):
-    return l.startswith("regdef ") or l.startswith("endian ") or l.startswith("initblob ")
+    return l.startswith("regdef ") or l.startswith("endian ") or l.startswith("initblob ") or l.startswith("xenrec ")
 
 
 POW2 = [1 << s for s in (0, 1, 9, 12, 13, 16, 18, 31, 32, 47, 62, 63)]
@@ -339,6 +371,85 @@ def gen_regs(R, rng, idx, nops):
     lines.append("get cpu.0.PRSTATUS")
     lines += ["get cpu.0." + n for n in names]
     return Case("R", lines, dict(arch=arch, be=be, table=tab, size=size, blob0=blob0))
+
+
+def gen_xen(R, rng, idx, nops):
+    """A Xen domain dump (xc_core ELF, x86-64) whose `.xen_prstatus` section holds 1-3 register
+    records and, in some cases, a trailing partial one: reads and WRITES of cpu.<n>.reg.*, edits,
+    replacement and clearing of cpu.<n>.XEN_PRSTATUS, on every virtual CPU in turn."""
+    tab, size = xen_abi_table()
+    ncpu = rng.choice([1, 1, 2, 3])
+    tail = rng.choice([0, 0, 1, 8, size - 1])
+    sect = bytes(rng.randrange(256) for _ in range(ncpu * size + tail))
+    path = R.path("c14-xen-%d.elf" % idx)
+    p2m = rng.random() < 0.5
+    dumpgen.write_xc_core(path, [(3 + k, 0x100 + 7 * k) for k in range(rng.randint(1, 3))], p2m=p2m, prstatus=sect)
+    # (the page list plays no role here; a replay regenerates the dump with one page)
+    names = sorted(tab)
+    lines = ["endian 0"] + ["regdef %s %d %d" % (n, tab[n][0], tab[n][1]) for n in names]
+    lines += ["xenrec %d" % size, "initblob " + hx(sect), "open " + path]
+    narrow = [n for n in names if tab[n][1] == 2]
+    def pick():
+        return rng.choice(narrow) if rng.random() < 0.3 else rng.choice(names)
+    def cpu():
+        return rng.randrange(ncpu)
+    for c in range(ncpu):
+        lines.append("get cpu.%d.XEN_PRSTATUS" % c)
+    lines += ["get cpu.%d.XEN_PRSTATUS" % ncpu, "get cpu.%d.reg.rip" % ncpu, "get cpu.0.PRSTATUS"]
+    seen = []
+    for _ in range(nops):
+        k = rng.random()
+        c, n = cpu(), pick()
+        key = "cpu.%d.%s" % (c, n)
+        bk = "cpu.%d.XEN_PRSTATUS" % c
+        off, ln = tab[n]
+        if k < 0.25:
+            lines.append("get " + key)
+        elif k < 0.7:
+            q = rng.random()
+            if q < 0.15:
+                v = 0
+            elif q < 0.3 and seen:
+                v = rng.choice(seen)
+            elif q < 0.5:
+                v = rng.getrandbits(64)                      # wider than a 16-bit selector
+            elif q < 0.6:
+                v = (1 << 8 * ln) - 1
+            else:
+                v = rng.getrandbits(8 * ln)
+            seen.append(v)
+            lines += ["setnum %s %d" % (key, v), "get " + key]
+            if rng.random() < 0.5:
+                lines.append("get " + bk)
+            if ncpu > 1 and rng.random() < 0.5:              # the same register of another CPU
+                lines.append("get cpu.%d.%s" % ((c + 1) % ncpu, n))
+        elif k < 0.82:
+            o = max(0, off - rng.choice([0, 0, 1, 3]))
+            bs = bytes(rng.randrange(256) for _ in range(rng.choice([1, ln, ln, ln + 2])))
+            lines += ["poke %s %d %s" % (bk, o, hx(bs)), "get " + key]
+        elif k < 0.86:
+            lines += ["clear " + bk, "get " + bk, "get " + key]
+            if rng.random() < 0.6:
+                lines += ["setnum %s %d" % (key, rng.getrandbits(8 * ln)), "get " + key]
+            if ncpu > 1:
+                lines.append("get cpu.%d.%s" % ((c + 1) % ncpu, n))
+            lines += ["setblob %s %s" % (bk, hx(bytes(rng.randrange(256) for _ in range(size)))), "get " + key]
+        else:
+            q = rng.random()
+            if q < 0.5:
+                nb = bytes(rng.randrange(256) for _ in range(size))
+            elif q < 0.85:
+                nb = bytes(rng.randrange(256) for _ in range(rng.choice([off, off + 1, off + ln - 1, off + ln, 0, size - 1, size + 16])))
+            else:
+                nb = bytes(size)
+            lines += ["setblob %s %s" % (bk, hx(nb)), "get " + key]
+            if rng.random() < 0.5:
+                lines += ["setnum %s %d" % (key, rng.getrandbits(8 * ln)), "get " + bk, "get " + key]
+    for c in range(ncpu):                                    # final sweep: every register of every CPU
+        lines.append("get cpu.%d.XEN_PRSTATUS" % c)
+        lines += ["get cpu.%d.%s" % (c, n) for n in names]
+    return Case("X", lines, dict(arch="xen-x86_64", be=False, table=tab, size=size, blob0=sect, ncpu=ncpu,
+                                 blobkey="XEN_PRSTATUS", p2m=p2m, npages=None))
 
 
 # fixed probes for the findings that are listed in KNOWN_FINDINGS (evaluated by (1) only)
@@ -675,72 +786,91 @@ def KnownOrFail(idx, msg, key):
 
 
 def check_regs(case, obs):
+    """Registers of CPU n against the bytes of that CPU's blob attribute (PRSTATUS, or XEN_PRSTATUS
+    on a Xen dump: blob n = record n of the `.xen_prstatus` section), in both directions."""
     m = case.meta
     tab, be = m["table"], m["be"]
+    bkey = m.get("blobkey", "PRSTATUS")
+    ncpu = m.get("ncpu", 1)
+    size = m["size"]
     L = [l for l in case.lines if not silent(l)]
-    blob = None
+    blobs = None
+    def split(key):
+        t = key.split(".", 2)
+        return int(t[1]), t[2]
     for i, (l, o) in enumerate(zip(L, obs)):
         w = l.split()
         if w[0] == "open":
             if o != "open ok":
-                raise FailAt(i, "generated %s ELF dump does not open: %s" % (m["arch"], o))
-            blob = bytearray(m["blob0"])
-        elif w[0] == "setblob":
+                raise FailAt(i, "generated %s dump does not open: %s" % (m["arch"], o))
+            if bkey == "PRSTATUS":
+                blobs = [bytearray(m["blob0"])]
+            else:
+                blobs = [bytearray(m["blob0"][k * size:(k + 1) * size]) for k in range(ncpu)]
+            continue
+        c, name = split(w[1])
+        cpu = "cpu.%d." % c
+        if c >= ncpu or (name.endswith("PRSTATUS") and name != bkey):
+            # no such CPU / no such blob in this kind of dump
+            if w[0] in ("get", "setnum", "setblob", "clear") and o.split()[1] == "ok":
+                raise FailAt(i, "'%s' succeeds although the dump has %d CPU(s) with %s" % (l, ncpu, bkey))
+            continue
+        blob = blobs[c]
+        if w[0] == "setblob":
             if o != "set ok":
-                raise FailAt(i, "replacing PRSTATUS failed: " + o)
-            blob = bytearray(unhx(w[2]))
-        elif l == "clear cpu.0.PRSTATUS":
+                raise FailAt(i, "replacing %s%s failed: %s" % (cpu, bkey, o))
+            blobs[c] = bytearray(unhx(w[2]))
+        elif w[0] == "clear":
             if o != "clear ok":
-                raise FailAt(i, "clearing PRSTATUS failed: " + o)
-            blob = None
+                raise FailAt(i, "clearing %s%s failed: %s" % (cpu, bkey, o))
+            blobs[c] = None
         elif w[0] == "poke":
             off, bs = int(w[2]), unhx(w[3])
             if blob is not None and off + len(bs) <= len(blob):
                 blob[off:off + len(bs)] = bs
-        elif l == "get cpu.0.PRSTATUS":
+        elif w[0] == "get" and name == bkey:
             st, v = parse_get(o)
             if blob is None:
                 if st == "ok":
-                    raise FailAt(i, "cpu.0.PRSTATUS still has a value after it was cleared")
+                    raise FailAt(i, "%s%s still has a value after it was cleared" % (cpu, bkey))
                 continue
             if st != "ok" or v != bytes(blob):
                 d = [j for j in range(min(len(v or b""), len(blob))) if v[j] != blob[j]][:8] if st == "ok" else []
-                raise FailAt(i, "cpu.0.PRSTATUS differs from the bytes written (status %s, first differing offsets %s)" % (st, d))
+                raise FailAt(i, "%s%s differs from the bytes written (status %s, first differing offsets %s)" % (cpu, bkey, st, d))
         elif w[0] == "setnum":
-            n = w[1][len("cpu.0."):]
-            off, ln = tab[n]
+            off, ln = tab[name]
             v = int(w[2])
             st = o.split()[1]
             if blob is None:
                 if st == "ok":
-                    raise FailAt(i, "writing cpu.0.%s succeeded although PRSTATUS has no value" % n)
+                    raise FailAt(i, "writing %s%s succeeded although %s has no value" % (cpu, name, bkey))
                 continue
             if off + ln <= len(blob):
                 if st != "ok":
-                    raise FailAt(i, "writing cpu.0.%s failed with %s" % (n, st))
+                    raise FailAt(i, "writing %s%s = %#x failed with %s although %s%s holds %d bytes (register at %d..%d): "
+                                    "the attribute side does not update the blob side" % (cpu, name, v, st, cpu, bkey, len(blob), off, off + ln))
                 blob[off:off + ln] = (v & ((1 << 8 * ln) - 1)).to_bytes(ln, "big" if be else "little")
             elif st == "ok":
-                raise FailAt(i, "writing cpu.0.%s succeeded although PRSTATUS has only %d bytes (register at %d..%d)" % (n, len(blob), off, off + ln))
+                raise FailAt(i, "writing %s%s succeeded although %s has only %d bytes (register at %d..%d)" % (cpu, name, bkey, len(blob), off, off + ln))
         elif w[0] == "get":
-            n = w[1][len("cpu.0."):]
-            if n not in tab:
-                raise FailAt(i, "register %s is not in the ABI table" % n)
-            off, ln = tab[n]
+            if name not in tab:
+                raise FailAt(i, "register %s is not in the ABI table" % name)
+            off, ln = tab[name]
             st, v = parse_get(o)
             if blob is None:
                 if st == "ok":
-                    raise FailAt(i, "cpu.0.%s reads %#x although PRSTATUS has no value" % (n, v))
+                    raise FailAt(i, "%s%s reads %#x although %s has no value" % (cpu, name, v, bkey))
                 continue
             if off + ln <= len(blob):
                 exp = int.from_bytes(blob[off:off + ln], "big" if be else "little")
                 if st != "ok" or v != exp:
-                    raise FailAt(i, "cpu.0.%s reads %s (%s), PRSTATUS bytes %d..%d in %s-endian order are %#x"
-                                 % (n, "%#x" % v if st == "ok" else "-", st, off, off + ln, "big" if be else "little", exp))
+                    raise FailAt(i, "%s%s reads %s (%s), %s bytes %d..%d in %s-endian order are %#x"
+                                 % (cpu, name, "%#x" % v if st == "ok" else "-", st, bkey, off, off + ln, "big" if be else "little", exp))
             elif st == "ok":
-                raise FailAt(i, "cpu.0.%s reads %#x although PRSTATUS has only %d bytes" % (n, v, len(blob)))
+                raise FailAt(i, "%s%s reads %#x although %s has only %d bytes" % (cpu, name, v, bkey, len(blob)))
 
 
-CHECK = dict(P=check_page, L=check_version, V=check_vmci, R=check_regs)
+CHECK = dict(P=check_page, L=check_version, V=check_vmci, R=check_regs, X=check_regs)
 
 
 # ----------------------------------------------------------------------------- run
@@ -757,6 +887,8 @@ def gen_cases(R):
                               dot_rate=0.15 if i % 4 == 1 else 0.0))
     for i in range(32 if quick else 1600):
         cases.append(gen_regs(R, rng, i, rng.randint(8, 30) if quick else rng.randint(10, 60)))
+    for i in range(10 if quick else 400):
+        cases.append(gen_xen(R, rng, i, rng.randint(8, 24) if quick else rng.randint(10, 60)))
     return cases
 
 
@@ -765,18 +897,23 @@ def discover_tables(R, exe):
     derived attribute read back; compared with the ABI table."""
     bad = []
     n = 0
-    for idx, (arch, cls, be) in enumerate(ARCHES):
-        tab, size = abi_table(arch)
+    targets = [(arch, cls, be, "PRSTATUS") for arch, cls, be in ARCHES] + [("xen-x86_64", 64, False, "XEN_PRSTATUS")]
+    for idx, (arch, cls, be, bkey) in enumerate(targets):
         path = R.path("c14-disc-%d.elf" % idx)
-        dumpgen.write_elf(path, [dict(pfn=16, npages=1, voff=0)], machine=arch, elfclass=cls, be=be,
-                          notes=elf_note(b"CORE", 1, bytes(size), be))
+        if bkey == "PRSTATUS":
+            tab, size = abi_table(arch)
+            dumpgen.write_elf(path, [dict(pfn=16, npages=1, voff=0)], machine=arch, elfclass=cls, be=be,
+                              notes=elf_note(b"CORE", 1, bytes(size), be))
+        else:
+            tab, size = xen_abi_table()
+            dumpgen.write_xc_core(path, [(3, 0x103)], prstatus=bytes(size))
         pats = [bytes(i & 0xff for i in range(size)), bytes((i >> 8) & 0xff for i in range(size)), bytes([0xff]) * size]
-        inp = "open %s\n" % path + "".join("setblob cpu.0.PRSTATUS %s\ntree cpu.0\n" % hx(p) for p in pats)
+        inp = "open %s\n" % path + "".join("setblob cpu.0.%s %s\ntree cpu.0\n" % (bkey, hx(p)) for p in pats)
         rc, out, err = R.run_harness(exe, stdin_text=inp)
         o = kdf.obs(out)
         trees = [parse_tree(x)[1] or [] for x in o if x.startswith("tree")]
         if not o or o[0] != "open ok":
-            bad.append((arch, be, "generated ELF dump with one PRSTATUS note does not open: %s %s" % (o[:1], first_err(err))))
+            bad.append((arch, be, "generated dump with one %s record does not open: %s %s" % (bkey, o[:1], first_err(err))))
             continue
         if len(trees) != 3:
             bad.append((arch, be, "cannot list cpu.0: " + " | ".join(o)[:200] + err[-300:]))
@@ -790,7 +927,7 @@ def discover_tables(R, exe):
         n += len(impl)
         if impl != tab:
             diff = sorted(set(impl.items()) ^ set(tab.items()))[:6]
-            bad.append((arch, be, "register layout differs from the ELF core ABI: %r" % diff))
+            bad.append((arch, be, "register layout differs from the %s: %r" % ("ELF core ABI" if bkey == "PRSTATUS" else "Xen public headers", diff)))
     return bad, n
 
 
@@ -868,7 +1005,9 @@ def run(R):
                     "or dotted prefixes of other keys, TYPE(sym) keys, PAGESIZE/OSRELEASE, empty text, empty lines, rows without '=', missing final "
                     "newline, followed by tree listings, kdump_vmcoreinfo_raw/line/symbol and the page/release views; R = generated ELF dumps of "
                     "8 architecture/byte-order pairs with random PRSTATUS, histories of register reads, writes (0, repeated, over-wide values), "
-                    "in-place blob edits, blob replacement incl. short blobs, final sweep of every register; non-trivial = distinct cases with >= 2 mutating operations",
+                    "in-place blob edits, blob replacement incl. short blobs, final sweep of every register; X = generated Xen domain dumps "
+                    "(xc_core ELF, x86-64) whose .xen_prstatus section holds 1-3 virtual-CPU records plus a partial one, the same histories "
+                    "on cpu.<n>.reg.* / cpu.<n>.XEN_PRSTATUS of every CPU, reads of the other CPUs after each write; non-trivial = distinct cases with >= 2 mutating operations",
                traces_validated_against_impl=len(impl), correspondence_first_diff=first_mismatch, case_kinds=kinds,
                registers_checked_against_abi=nregs, c16_monitor_lines=c16[:5],
                samples=[dict(kind=cases[i].kind, lines=cases[i].lines[:6]) for i in (len(cases) // 3, len(cases) - 1)])
@@ -911,7 +1050,12 @@ def replay(R, path):
     inp = rp.get("input") or (rp.get("first_diff") or {}).get("input") or ""
     # ELF dumps of R cases live in the scratch directory of the original run: regenerate
     m = re.search(r"^open (\S+)$", inp, re.M)
-    if m and rp.get("arch"):
+    if m and rp.get("arch") == "xen-x86_64":
+        p = R.path("replay.elf")
+        ib = re.search(r"^initblob (\S+)$", inp, re.M)
+        dumpgen.write_xc_core(p, [(3, 0x103)], prstatus=unhx(ib.group(1)) if ib else bytes(XEN_RECSZ))
+        inp = inp.replace(m.group(1), p)
+    elif m and rp.get("arch"):
         arch = rp["arch"]
         cls, be = [(c, b) for a, c, b in ARCHES if a == arch][0] if arch != "ppc64" else (64, "endian 1" in inp)
         tab, size = abi_table(arch)
